@@ -4,7 +4,7 @@ re-enters the construct and (where legal) throws again (C11)."""
 import itertools
 
 WRAPPERS = ["loop", "while", "for", "block", "if", "match", "try", "catch", "call", "lambda", "tryl"]
-EXITS = ["break", "continue", "return", "throw", "fatal", "retthrow", "pthrow"]
+EXITS = ["break", "continue", "return", "throw", "fatal", "retthrow", "pthrow", "ethrow"]
 
 
 def legal(ws, x):
@@ -37,6 +37,10 @@ class Builder:
             # a throw raised by this very activation while an operand of an enclosing expression is pending: the handler
             # must drop that operand again (a caller's own pending operands would otherwise be paired with it)
             return [f'println("exit {tag}");', 'let zz = 100 + { if zero == 0 { throw("boom p"); } 1 };', 'println("not reached", zz);']
+        if x == "ethrow":
+            # `throw(..)` in expression position (the value of an if branch): the exception still carries the position of
+            # the call itself, not of whatever instruction follows it
+            return [f'println("exit {tag}");', 'let zz = if zero == 0 {', '    throw("boom e")', '} else {', '    1', '};', 'println("not reached", zz);']
         if x == "retthrow":
             # the operand of `return` throws: it is still evaluated inside the enclosing try blocks
             return [f'println("exit {tag}");', "return boom_i();" if in_fn else "return boom_n();"]
@@ -88,12 +92,12 @@ class Builder:
         if w == "match":
             return pre + ["match 1 {", "    1 => {"] + ind(ind(body)) + ["    },", "    _ => {},", "};", f'println("after match{depth}", k);']
         if w == "try":
-            return pre + ["try {"] + ind(body) + [f"}} catch {c} {{", f'    println("caught{depth}", {c}.message, {c}.line > 0);', "};",
+            return pre + ["try {"] + ind(body) + [f"}} catch {c} {{", f'    println("caught{depth}", {c}.message, {c}.line, {c}.column);', "};",
                           f'println("after try{depth}", k);']
         if w == "tryl":
             # a try whose body, when it reaches its end, still throws: the handler installed on entry must be the one in
             # force after everything the body did (calls that returned, inner constructs that were left)
-            return pre + ["try {"] + ind(body) + [f'    throw("late{depth}");', f"}} catch {c} {{", f'    println("caught{depth}", {c}.message, {c}.line > 0);', "};",
+            return pre + ["try {"] + ind(body) + [f'    throw("late{depth}");', f"}} catch {c} {{", f'    println("caught{depth}", {c}.message, {c}.line, {c}.column);', "};",
                           f'println("after tryl{depth}", k);']
         if w == "catch":
             return pre + ["try {", f'    throw("enter{depth}");', f"}} catch {c} {{"] + ind(body) + ["};", f'println("after catch{depth}", k);']
